@@ -163,6 +163,9 @@ def text_cue_nodes(line_strategy, min_lines=1, max_lines=4, empty_lines=True, sp
                 nodes.append({"br": 1})
                 if empty_lines and draw(st.integers(0, 5)) == 0:
                     kind = draw(st.sampled_from(list(empty_kinds)))
+                    if kind == "blank":
+                        # a line holding nothing but a text node of blanks / a tab
+                        nodes.append({"t": draw(st.sampled_from([" ", "  ", "\t"]))})
                     if kind == "style":
                         # a line that holds nothing but an (empty) span of a style most formats
                         # cannot express
